@@ -931,52 +931,91 @@ def regen(ctx):
     def fn_ast(f):
         return ast.parse(textwrap.dedent(inspect.getsource(f))).body[0]
 
-    def filing_keys(f):
-        """the subscript expressions of `le_connection_channels[<k>] = channel`"""
+    def is_filing_target(t):
+        """le_connection_channels[<k>] or self.le_coc_channels[<h>][<k>] as an assignment target"""
+        if not isinstance(t, ast.Subscript):
+            return False
+        v = ast.unparse(t.value)
+        return v == 'le_connection_channels' or v.startswith('self.le_coc_channels[')
+
+    def filing_keys_of(node):
         keys = []
-        for node in ast.walk(fn_ast(f)):
-            if isinstance(node, ast.Assign) and len(node.targets) == 1:
-                t = node.targets[0]
-                if (isinstance(t, ast.Subscript) and isinstance(t.value, ast.Name)
-                        and t.value.id == 'le_connection_channels'):
+        for sub in ast.walk(node):
+            targets = sub.targets if isinstance(sub, ast.Assign) else (
+                [sub.target] if isinstance(sub, (ast.AugAssign, ast.AnnAssign)) else [])
+            for t in targets:
+                if is_filing_target(t):
                     keys.append(ast.unparse(t.slice))
         return keys
 
-    def loop_var_over_request_source_cid(f):
+    def filing_keys(f):
+        return filing_keys_of(fn_ast(f))
+
+    def loop_var_over(f, iter_text_fragment):
         for node in ast.walk(fn_ast(f)):
-            if isinstance(node, ast.For) and ast.unparse(node.iter) == 'request.source_cid':
+            if isinstance(node, ast.For) and iter_text_fragment in ast.unparse(node.iter):
                 return ast.unparse(node.target)
         return None
 
     table = {}
-    # LE initiator / enhanced initiator: key is an attribute of the channel
-    for name, f in (('LeInitiator', M.create_le_credit_based_channel),
-                    ('EnhInitiator', M.create_enhanced_credit_based_channels)):
-        ks = filing_keys(f)
-        if ks == ['channel.destination_cid']:
+    where = {}
+    # the functions in which each of the four paths may file a channel in le_coc_channels
+    # (the initiators: in the opening coroutine, or in the handler of the response)
+    sites = {
+        'LeInitiator': ('create_le_credit_based_channel', 'on_l2cap_le_credit_based_connection_response'),
+        'EnhInitiator': ('create_enhanced_credit_based_channels', 'on_l2cap_credit_based_connection_response'),
+        'LeAcceptor': ('on_l2cap_le_credit_based_connection_request',),
+        'EnhAcceptor': ('on_l2cap_credit_based_connection_request',),
+    }
+    known = {fn for fns in sites.values() for fn in fns}
+    # a filing statement anywhere else in the module is unrecognised: fail closed
+    module = ast.parse(inspect.getsource(l2cap))
+    for node in ast.walk(module):
+        if isinstance(node, (ast.FunctionDef, ast.AsyncFunctionDef)) and node.name not in known:
+            ks = filing_keys_of(node)
+            if ks:
+                raise RuntimeError(f'{node.name}: files a channel in le_coc_channels under {ks}: not a recognised place')
+    for name, fns in sites.items():
+        found = []
+        for fn in fns:
+            f = getattr(M, fn, None)
+            if f is None:
+                raise RuntimeError(f'ChannelManager.{fn} not found')
+            found += [(fn, k) for k in filing_keys(f)]
+        if len(found) != 1:
+            raise RuntimeError(f'{name}: expected exactly one le_coc_channels filing in {fns}, found {found}')
+        fn, k = found[0]
+        f = getattr(M, fn)
+        if name in ('LeInitiator', 'EnhInitiator'):
+            # `channel` is the initiator's own channel object; in the LE response handler `request` is
+            # our own pending request (request.source_cid is OUR CID), `response.destination_cid` the peer's
+            dst_keys = {'channel.destination_cid'}
+            src_keys = {'channel.source_cid', 'source_cid'}
+            if fn == 'on_l2cap_le_credit_based_connection_response':
+                dst_keys.add('response.destination_cid')
+                src_keys.add('request.source_cid')
+            if fn == 'on_l2cap_credit_based_connection_response':
+                lv = loop_var_over(f, 'response.destination_cid')     # for channel, destination_cid in zip(...)
+                if lv and ',' in lv:
+                    dst_keys.add(lv.strip('()').split(',')[-1].strip())
+        elif name == 'LeAcceptor':
+            # `request` is the peer's request: its source CID is our destination CID
+            dst_keys = {'request.source_cid', 'channel.destination_cid'}
+            src_keys = {'source_cid', 'channel.source_cid'}
+        else:
+            lv = loop_var_over(f, 'request.source_cid')               # for destination_cid in request.source_cid
+            if lv is None:
+                raise RuntimeError(f'{fn}: no loop over request.source_cid')
+            dst_keys = {lv, 'channel.destination_cid'}
+            src_keys = {'source_cid', 'channel.source_cid'} - {lv}
+        if k in dst_keys:
             table[name] = 'KDst'
-        elif ks == ['channel.source_cid']:
+        elif k in src_keys:
             table[name] = 'KSrc'
         else:
-            raise RuntimeError(f'{f.__name__}: unrecognised le_coc_channels filing {ks}')
-    ks = filing_keys(M.on_l2cap_le_credit_based_connection_request)
-    if ks == ['request.source_cid']:
-        table['LeAcceptor'] = 'KDst'          # the peer's source CID is our destination CID
-    elif ks == ['source_cid']:
-        table['LeAcceptor'] = 'KSrc'
-    else:
-        raise RuntimeError(f'on_l2cap_le_credit_based_connection_request: unrecognised filing {ks}')
-    f = M.on_l2cap_credit_based_connection_request
-    ks = filing_keys(f)
-    lv = loop_var_over_request_source_cid(f)
-    if lv is None:
-        raise RuntimeError('on_l2cap_credit_based_connection_request: no loop over request.source_cid')
-    if ks == [lv] or ks == ['channel.destination_cid']:
-        table['EnhAcceptor'] = 'KDst'
-    elif ks == ['source_cid'] or ks == ['channel.source_cid']:
-        table['EnhAcceptor'] = 'KSrc'
-    else:
-        raise RuntimeError(f'on_l2cap_credit_based_connection_request: unrecognised filing {ks}')
+            raise RuntimeError(f'{fn}: unrecognised le_coc_channels filing key {k!r}')
+        where[name] = f'{fn}: [{k}]'
+    ctx.extra['lecoc_filing_sites'] = where
     # the CID a returned credit carries / is looked up by
     src = inspect.getsource(C.on_pdu)
     carries = None
